@@ -29,7 +29,7 @@ Inductive val := VInt (z : Z) | VPtr (r : region) (off : Z) | VNull | VUndef
   | VHeap (h : list (option (list val))).        (* only ever the value of the pseudo-variable "$cells": the cell heap; None = a released block *)
 
 Inductive cty := TInt | TUChar | TChar | TUInt | TSizeT.
-Inductive binop := Add | Sub | Mul | Div | Shl | Shr | BAnd | BOr | BXor | Lt | Le | Gt | Ge | Eq | Ne.
+Inductive binop := Add | Sub | Mul | Div | Shl | Shr | BAnd | BOr | BXor | Lt | Le | Gt | Ge | Eq | Ne | Mod.
 
 Inductive expr :=
 | EConst (z : Z)
@@ -77,7 +77,8 @@ Inductive expr :=
 | ESeekCur (e : expr)                  (* fseek(f, e, SEEK_CUR) with e >= 0 on a regular file: the position moves on (also beyond the end), 0 *)
 | EPtrAdd (p e : expr)                 (* p + e on a char pointer *)
 | EPostDec (x : string)
-| EPreDec (x : string).
+| EPreDec (x : string)
+| ELongMul (a b : expr).               (* (long)a * b on two ints: the product in 64 bits, which always holds it; only ever the offset of an fseek *)
 
 (* an argument of a call: a value; the address of an int local (&x); or a pointer parameter p of the
    caller handed on (the cell it points to is the caller's pseudo-variable "*p") *)
@@ -92,7 +93,8 @@ Inductive stmt :=
 | SWhile (c : expr) (body : stmt)
 | SReturn (e : expr)
 | SBreak
-| SCall (ret : option string) (g : string) (args : list carg).   (* x = g(args): only ImpCall.execE runs it *)
+| SCall (ret : option string) (g : string) (args : list carg)    (* x = g(args): only ImpCall.execE runs it *)
+| SFault (why : string).               (* a statement the translator could not express (in a function translated in part): reaching it is a fault *)
 
 Record state := { vars : list (string * val); inb : list Z; outb : list Z }.
 
@@ -138,6 +140,7 @@ Definition binop_int (op : binop) (a b : Z) : option val :=
   | Ge => Some (VInt (b2z (a >=? b)))
   | Eq => Some (VInt (b2z (a =? b)))
   | Ne => Some (VInt (b2z (negb (a =? b))))
+  | Mod => if b =? 0 then None else chk (Z.rem a b)
   end.
 
 Definition u32 : Z := 4294967296.
@@ -160,6 +163,7 @@ Definition binop_uint (op : binop) (a b : Z) : option val :=
   | Ge => Some (VInt (b2z (a >=? b)))
   | Eq => Some (VInt (b2z (a =? b)))
   | Ne => Some (VInt (b2z (negb (a =? b))))
+  | Mod => if b =? 0 then None else Some (VInt (a mod b))
   end.
 
 Definition truth (v : val) : option bool :=
@@ -859,6 +863,15 @@ Fixpoint eval (e : expr) (s : state) : option (val * state) :=
                 | None => None end
     | None => None
     end
+  | ELongMul a b =>
+    match eval a s with
+    | Some (VInt x, s1) =>
+      match eval b s1 with
+      | Some (VInt y, s2) => if in_int x && in_int y then Some (VInt (x * y), s2) else None
+      | _ => None
+      end
+    | _ => None
+    end
   | EWriteByte a =>
     match eval a s with
     | Some (VInt z, s1) =>
@@ -911,6 +924,7 @@ Fixpoint exec (fuel : nat) (st : stmt) (s : state) : outcome :=
     | SReturn e => match eval e s with Some (v, s1) => OReturn v s1 | None => OFault end
     | SBreak => OBreak s
     | SCall _ _ _ => OFault          (* calls need the function table: ImpCall.execE *)
+    | SFault _ => OFault
     end
   end.
 
